@@ -38,7 +38,7 @@ def run(ctx: Any, prog: Program) -> None:
     vm = prog.module('vmf')
     ctx.not_decided += ['garbage-collection timing of __del__', 'parsing of replaceNN names',
                         'objects created for one map and added to another (documented as unsupported)',
-                        'discard() of a never-allocated non-positive value lowering search_pos below 1 (no package call site does this)']
+                        ]
     ctx.rule('C08.D1', 'IDMan.get_id returns only values it has just reserved; desired ids must be positive; search_pos discipline', floor=8)
     ctx.rule('C08.D2', '_used is private to the managers; object ids are assigned only from get_id in constructors', floor=8)
     ctx.rule('C08.D3', 'each class acquires and releases through its own manager; map reference never re-assigned', floor=8)
@@ -123,8 +123,15 @@ def run(ctx: Any, prog: Program) -> None:
                     why = 'must be set to the returned id + 1'
                 else:
                     p = vm.parents.get(n)
-                    ok = isinstance(v, ast.Name) and isinstance(p, ast.If) and ast.unparse(p.test) == f'{v.id} < self.search_pos'
-                    why = 'may only be lowered to a released id that is below it'
+                    tsrc = ast.unparse(p.test).replace(' ', '') if isinstance(p, ast.If) else ''
+                    vn = v.id if isinstance(v, ast.Name) else '?'
+                    below = tsrc in (f'{vn}<self.search_pos', f'0<{vn}<self.search_pos', f'1<={vn}<self.search_pos', f'{vn}>0and{vn}<self.search_pos', f'{vn}>=1and{vn}<self.search_pos')
+                    positive = tsrc != f'{vn}<self.search_pos' or any(isinstance(c, ast.Call) and isinstance(c.func, ast.Attribute) and c.func.attr == 'remove' and dotted(c.func.value) == 'self._used'
+                                                                     and c.args and dotted(c.args[0]) == vn and c.lineno < n.lineno for c in ast.walk(fn))
+                    ok = isinstance(v, ast.Name) and below and positive
+                    why = 'may only be lowered to a released id that is below it' if not below else \
+                        (f'`{vn}` may be zero or negative here (discard() accepts any value, e.g. a "no id" sentinel): the search then starts below 1 and get_id() hands out 0 or a negative id; '
+                         'the lowering must require a positive value')
                 ctx.check('C08.D1', ok, vm, n, f'search_pos write in {qual}: {why}', func=qual)
     # ---- D2 --------------------------------------------------------------------------------------------
     for modname in prog.module_names():
@@ -332,6 +339,7 @@ def run(ctx: Any, prog: Program) -> None:
 
 
 MUTANTS = [
+    {'id': 'discard_lowers_to_non_positive', 'file': 'vmf.py', 'find': "        if 0 < element < self.search_pos:\n            self.search_pos = element", 'replace': "        if element < self.search_pos:\n            self.search_pos = element", 'expect': 'C08.D1'},
     {'id': 'entity_init_bulk_copies_keys', 'file': 'vmf.py', 'find': "        for k, v in keys.items():\n            self[k] = v\n\n        fixup_list = list(fixup)", 'replace': "        if isinstance(keys, _KeyDict):\n            self._keys.update(keys)\n        else:\n            for k, v in keys.items():\n                self[k] = v\n\n        fixup_list = list(fixup)", 'expect': 'C08.D4'},
     {'id': 'node_id_released_on_remove', 'file': 'vmf.py', 'find': "        # Neither the entity ID nor its node ID are released here.", 'replace': "        if 'nodeid' in item:\n            self.node_id.discard(int(item['nodeid']))\n        # Neither the entity ID nor its node ID are released here.", 'expect': 'C08.D4'},
     {'id': 'node_id_reacquired_on_add', 'file': 'vmf.py', 'find': "        # A node ID is reserved by the entity for as long as it has the keyvalue, whether it is in the map or not\n", 'replace': "        if 'nodeid' in item:\n            item['nodeid'] = str(self.node_id.get_id(int(item['nodeid'])))\n", 'expect': 'C08.D4'},
@@ -342,7 +350,7 @@ MUTANTS = [
     {'id': 'desired_zero_allowed', 'file': 'vmf.py', 'find': "        if desired > 0 and desired not in self._used:", 'replace': "        if desired >= 0 and desired not in self._used:", 'expect': 'C08.D1'},
     {'id': 'desired_not_checked_free', 'file': 'vmf.py', 'find': "        if desired > 0 and desired not in self._used:", 'replace': "        if desired > 0:", 'expect': 'C08.D1'},
     {'id': 'search_pos_not_advanced_ok', 'file': 'vmf.py', 'find': "                self.search_pos = poss_id + 1\n", 'replace': "", 'expect': None, 'note': 'negative control: search_pos is only a hint; dropping the update keeps uniqueness'},
-    {'id': 'discard_raises_search_pos', 'file': 'vmf.py', 'find': "        self._used.discard(element)\n        if element < self.search_pos:\n            self.search_pos = element", 'replace': "        self._used.discard(element)\n        self.search_pos = element", 'expect': 'C08.D1'},
+    {'id': 'discard_raises_search_pos', 'file': 'vmf.py', 'find': "        if 0 < element < self.search_pos:\n            self.search_pos = element", 'replace': "        self.search_pos = element", 'expect': 'C08.D1'},
     {'id': 'solid_copy_reuses_id', 'file': 'vmf.py', 'find': "    def __attrs_post_init__(self) -> None:\n        self.id = self.map.solid_id.get_id(self.id)", 'replace': "    def __attrs_post_init__(self) -> None:\n        self.id = self.map.solid_id.get_id(self.id) if self.id <= 0 else self.id", 'expect': 'C08.D2'},
     {'id': 'side_uses_solid_manager', 'file': 'vmf.py', 'find': "        self.id = vmf_file.face_id.get_id(des_id)", 'replace': "        self.id = vmf_file.solid_id.get_id(des_id)", 'expect': 'C08.D2'},
     {'id': 'side_release_wrong_manager', 'file': 'vmf.py', 'find': "        self.map.face_id.discard(self.id)", 'replace': "        self.map.solid_id.discard(self.id)", 'expect': 'C08.D3'},
